@@ -265,7 +265,13 @@ class Iface:
             return [Res(st, ch)]
         if name == "_checkForCrossReferences":
             st.events.append(("child-xref", ch.ref))
-            return [Res(st, NONE)]
+            st.xref_calls = list(getattr(st, "xref_calls", [])) + [ch.ref]
+            if not X.hooks.get("child_xref_may_raise"):
+                return [Res(st, NONE)]
+            # contract of the recursive call: it returns, or raises ContainerException (a shared node below)
+            s2 = st.fork()
+            s2.events.append(("child-xref-raised", ch.ref))
+            return [Res(st, NONE)] + X.raise_(s2, "ContainerException", "shared aggregator below a child")
         if name == "fill":
             datum = args[0]
             w = args[1] if len(args) > 1 else kwargs.get("weight", VFl(Fl.const(1.0)))
